@@ -127,7 +127,8 @@ inline Op decode(const uint8_t* b, const Profile& p) {
       if (o.a[CA_FUNC] == F_ovs && o.a[CA_M0K] == M_WILD) o.a[CA_M0K] = M_ANY;  // harmless: typed wrapper either way
       o.a[CA_W0] = pct(19, p.p_with) ? 1 + b[19] % (NWKIND - 1) : W_OFF;
       o.a[CA_W1] = pct(20, p.p_with) ? 1 + b[20] % (NWKIND - 1) : W_OFF;
-      auto fxk = [&](int i) { int v = b[i] % 10; return v < 6 ? X_LOG : v < 8 ? X_NEST : X_THROW; };
+      // a tracer constructed inside a side effect only where the profile works with tracers at all
+      auto fxk = [&](int i) { int v = b[i] % 10; return v < 6 ? X_LOG : v < 8 ? X_NEST : (v == 9 && p.weight[O_PUSH_TRACER] > 0) ? X_TRACER : X_THROW; };
       o.a[CA_X0] = pct(21, p.p_fx) ? fxk(22) : X_OFF;
       o.a[CA_X1] = pct(23, p.p_fx) ? fxk(25) : X_OFF;
       o.a[CA_X0O] = b[3] % NOBJ; o.a[CA_X0F] = p.concentrate ? conc_funcs[b[22] % 12] : b[22] % NFUNC; o.a[CA_X0A] = b[24] % 6;
